@@ -556,7 +556,6 @@ void body(V::Ctx &ctx)
         plans.push_back({2, 2, "axrdubq", 1, true, 1});
         plans.push_back({2, 2, few, 2, false, 1});
         plans.push_back({3, 1, "axbrduv", 2, false, 1});
-        plans.push_back({3, 1, "rdu", 3, false, 1});
     }
     const char *only = getenv("C55_ONLY_PLAN");          // measurement aid
 
